@@ -118,6 +118,22 @@ func c16Worker(prop, tier string, seed uint64, from, to, stride int, deadline in
 		}
 		faults = append(faults, ts...)
 		faults = append([]world.DefFault{{Kind: "none"}}, faults...) // the definition as stored
+		loadsAsStored := false
+		if k, det := world.MigrationInvariants(d.Bytes, func() {}, false); k == "" && det == "accepted" {
+			loadsAsStored = true
+			var h struct {
+				SpecVersion string `json:"spec_version"`
+			}
+			json.Unmarshal(d.Bytes, &h)
+			switch {
+			case generated:
+				for vi, v := range []string{"13.0.0", "13.1.0", "13.2.0", "13.3.0", "13.4.0", "13.5.0"} {
+					faults = append(faults, world.DefFault{Kind: "old_long_names", Repl: v, Seed: uint64(vi)})
+				}
+			case h.SpecVersion != "" && !strings.HasPrefix(h.SpecVersion, "13.6"):
+				faults = append(faults, world.DefFault{Kind: "old_long_names", Seed: 0}, world.DefFault{Kind: "old_long_names", Seed: 1})
+			}
+		}
 		nm := nmulti
 		if generated {
 			nm = nmulti / 10
@@ -132,8 +148,10 @@ func c16Worker(prop, tier string, seed uint64, from, to, stride int, deadline in
 		for _, f := range faults {
 			faulty := world.ApplyDefFault(d.Bytes, f)
 			// the stability clauses are checked wherever the damaged bytes have one reading (no duplicate members, no bit noise)
-			inv := f.Kind == "delete_path" || f.Kind == "replace_path" || f.Kind == "typeswap" || f.Kind == "none"
-			o := cw.Consume(faulty, inv)
+			inv := f.Kind == "delete_path" || f.Kind == "replace_path" || f.Kind == "typeswap" || f.Kind == "none" || f.Kind == "old_long_names"
+			// a definition that loads as stored is still a valid definition of its (or an older) version when
+			// names are longer than the limits 13.6 introduced
+			o := cw.Consume(faulty, inv, f.Kind == "old_long_names" && loadsAsStored)
 			if inv {
 				res.Probes["stability_clauses_checked"]++
 				if o.Invariant == "" && o.InvariantDetail == "accepted" {
@@ -272,7 +290,7 @@ func c16Replay(rf *ReplayFile, path string, quiet bool) int {
 	if !quiet {
 		fmt.Printf("definition %s, fault %s\nfaulty bytes: %s\n", sp.Def, sp.Fault, clipS(string(faulty), 3000))
 	}
-	o := world.NewC16World(def).Consume(faulty, rf.Oracle == "stability")
+	o := world.NewC16World(def).Consume(faulty, rf.Oracle == "stability", sp.Fault.Kind == "old_long_names")
 	if o.Invariant != "" {
 		fp := "C16.stability/" + o.Invariant
 		fmt.Printf("accepted, but %s: %s\n", o.Invariant, clipS(o.InvariantDetail, 1500))
